@@ -842,8 +842,9 @@ class TempoClock(Clock, metaclass=MetaTempoClock):
                         return
 
                 # // perform all events that are ready
+                # (elapsed beats is read again, a task may change the tempo)
                 while not self._task_queue.empty()\
-                and elapsed_beats >= self._task_queue.peek()[0]:
+                and self.elapsed_beats() >= self._task_queue.peek()[0]:
                     item = self._task_queue.pop()
                     self._beats = item[0]
                     task = item[1]
